@@ -461,14 +461,43 @@ GroupLoop(i, F, obs, acc, order) ==
           ELSE IF r.fatal THEN [acc2 EXCEPT !.ret = "notingroup", !.W = [W2 EXCEPT !.alive = FALSE]]
           ELSE GroupLoop(i + 1, F, obs, acc2, order)
 
+\* ---- crash points: the process dies just before its k-th write call of the scan (fault [op |-> "crash", t |-> "#k"]).
+\* What has happened is exactly the prefix of the calls; controller memory is gone with the process.
+CrashAt(F) == IF \E f \in F : f.op = "crash" THEN (CHOOSE k \in 1..20 : [op |-> "crash", t |-> "#" \o ToString(k)] \in F) ELSE 0
+WriteIdx(calls) == {i \in 1..Len(calls) : IsWrite(calls[i])}
+KthWrite(calls, k) == IF Cardinality(WriteIdx(calls)) < k THEN 0
+                      ELSE CHOOSE i \in WriteIdx(calls) : Cardinality({j \in WriteIdx(calls) : j < i}) = k - 1
+RECURSIVE ApplyCalls(_, _, _)
+ApplyCalls(W, calls, i) ==
+  IF i > Len(calls) THEN W
+  ELSE LET c == calls[i]  g == c.g IN
+       IF ~c.ok \/ g \notin DOMAIN W.groups THEN ApplyCalls(W, calls, i + 1)
+       ELSE IF c.op = "update" /\ c.n \in DOMAIN W.groups[g].api
+         THEN ApplyCalls([W EXCEPT !.groups[g].api[c.n].taint = IF c.s = "untaint:" THEN [has |-> FALSE, ok |-> FALSE, at |-> 0] ELSE [has |-> TRUE, ok |-> TRUE, at |-> c.a]], calls, i + 1)
+       ELSE IF c.op = "delete" /\ c.n \in DOMAIN W.groups[g].api
+         THEN ApplyCalls([W EXCEPT !.groups[g].api = [m \in (DOMAIN @) \ {c.n} |-> @[m]]], calls, i + 1)
+       ELSE IF c.op = "terminate"
+         THEN ApplyCalls([W EXCEPT !.groups[g].asg = [@ EXCEPT !.desired = @ - 1, !.members = @ \ {c.n}],
+                                   !.groups[g].pc = [@ EXCEPT !.desired = @ - 1, !.members = @ \ {c.n}]], calls, i + 1)
+       ELSE IF c.op = "set_desired" THEN ApplyCalls([W EXCEPT !.groups[g].asg.desired = c.a], calls, i + 1)
+       ELSE ApplyCalls(W, calls, i + 1)
+
+\* the outcome of RunOnce cut at the crash point (r: the outcome had the process lived)
+CrashCut(W, F, r) ==
+  LET k == KthWrite(r.calls, CrashAt(F)) IN
+  IF CrashAt(F) = 0 \/ k = 0 THEN [r EXCEPT !.crash = FALSE]
+  ELSE LET pre == SubSeq(r.calls, 1, k - 1) IN
+       [r EXCEPT !.crash = TRUE, !.calls = pre, !.ret = "error", !.exit = FALSE,
+                 !.W = [ApplyCalls(Refreshed(W, F), pre, 1) EXCEPT !.alive = FALSE]]
+
 NoResult == [branch |-> "not_scanned", valid |-> TRUE, calls |-> <<>>, lookReq |-> {}, lookMay |-> {}, nd |-> 0, ndSet |-> {0},
              sel |-> [dir |-> 0, cands |-> {}, k |-> 0, fails |-> {}],
              terminated |-> {}, deleted |-> {}, tainted |-> {}, untainted |-> {}, ret |-> "nil", fatal |-> FALSE, exit |-> FALSE]
 
 RunOnce(W, F, obs) ==
   LET W1 == Refreshed(W, F)
-      acc0 == [W |-> W1, calls |-> RefreshCalls(F), ret |-> "nil", valid |-> TRUE, exit |-> FALSE,
+      acc0 == [W |-> W1, calls |-> RefreshCalls(F), ret |-> "nil", valid |-> TRUE, exit |-> FALSE, crash |-> FALSE,
                res |-> [g \in DOMAIN W.groups |-> NoResult]]
-  IN GroupLoop(1, F, obs, acc0, W.gorder)
+  IN CrashCut(W, F, [GroupLoop(1, F, obs, acc0, W.gorder) EXCEPT !.crash = FALSE])
 
 =============================================================================
